@@ -5,6 +5,7 @@ import (
 	"fmt"
 	"io"
 	"math"
+	"math/bits"
 	"slices"
 	"strconv"
 
@@ -393,37 +394,65 @@ func adjacentQuadrantY(quadrantI int) int {
 // lineIntersects tests whether a line intersects with an extent.
 // TODO this can probably be faster by reusing the edges for the other three quadrants and/or only testing relevant edges (hints)
 func lineIntersects(intLine intgeom.Line, intExtent intgeom.Extent) bool {
-	// First see if a point is inside (cheap test).
-	pt1IsInsideQuadrant := containsPoint(intLine[0], intExtent)
-	pt2IsInsideQuadrant := containsPoint(intLine[1], intExtent)
-	if pt1IsInsideQuadrant || pt2IsInsideQuadrant {
-		return true
-	}
-
-	for edgeI, intEdge := range intExtent.Edges(nil) {
-		intersection, intersects := intgeom.SegmentIntersect(intLine, intEdge)
-		// Checking for intersection cq crossing is not enough. The right and top edges are exclusive.
-		// So there are exceptions ...:
-		if intersects { //nolint:nestif
-			if isExclusiveEdge(edgeI) {
-				if intLine[0] == intersection || intLine[1] == intersection {
-					// The tip of a line coming from the outside touches the (exclusive) edge.
-					continue
-				}
-			} else {
-				// The tip of a line coming from the outside touches the exclusive tip of an inclusive edge.
-				exclusivePoint := getExclusiveTip(edgeI, intEdge)
-				if intLine[0] == exclusivePoint || intLine[1] == exclusivePoint {
-					continue
-				}
+	// Exact test of a closed line segment against a half-open extent (the right and top edges are exclusive).
+	// The segment's parameter t (0 at the first point, 1 at the second) is clipped per axis (Liang-Barsky)
+	// using exact fractions, while keeping track of whether the ends of the remaining range of t are included.
+	tMin, tMax := fraction{0, 1}, fraction{1, 1}
+	tMinExcluded, tMaxExcluded := false, false
+	for ax := xAx; ax <= yAx; ax++ {
+		ord, delta := intLine[0][ax], intLine[1][ax]-intLine[0][ax]
+		minOrd, maxOrd := intExtent[ax], intExtent[ax+2]
+		switch {
+		case delta == 0:
+			if ord < minOrd || ord >= maxOrd {
+				return false
 			}
-			return true
-		} else if !isExclusiveEdge(edgeI) && lineOverlapsInclusiveEdge(intLine, edgeI, intEdge) {
-			// No intersection but overlap on an inclusive edge.
-			return true
+		case delta > 0: // enters at the (inclusive) min edge, leaves at the (exclusive) max edge
+			if enter := (fraction{minOrd - ord, delta}); enter.compare(tMin) > 0 {
+				tMin, tMinExcluded = enter, false
+			}
+			if leave := (fraction{maxOrd - ord, delta}); leave.compare(tMax) <= 0 {
+				tMax, tMaxExcluded = leave, true
+			}
+		default: // enters at the (exclusive) max edge, leaves at the (inclusive) min edge
+			if enter := (fraction{ord - maxOrd, -delta}); enter.compare(tMin) >= 0 {
+				tMin, tMinExcluded = enter, true
+			}
+			if leave := (fraction{ord - minOrd, -delta}); leave.compare(tMax) < 0 {
+				tMax, tMaxExcluded = leave, false
+			}
 		}
 	}
-	return false
+	c := tMin.compare(tMax)
+	return c < 0 || c == 0 && !tMinExcluded && !tMaxExcluded
+}
+
+// fraction is an exact fraction with a positive denominator
+type fraction struct{ numerator, denominator int64 }
+
+// compare returns -1, 0 or 1 if f is smaller than, equal to or larger than g (without overflowing or rounding)
+func (f fraction) compare(g fraction) int {
+	fHi, fLo := mul128(f.numerator, g.denominator)
+	gHi, gLo := mul128(g.numerator, f.denominator)
+	switch {
+	case fHi != gHi:
+		return mathhelp.Bool2int(fHi > gHi)*2 - 1
+	case fLo != gLo:
+		return mathhelp.Bool2int(fLo > gLo)*2 - 1
+	}
+	return 0
+}
+
+// mul128 multiplies two int64s into a signed 128 bit result
+func mul128(a, b int64) (hi int64, lo uint64) {
+	uHi, lo := bits.Mul64(uint64(a), uint64(b))
+	if a < 0 {
+		uHi -= uint64(b)
+	}
+	if b < 0 {
+		uHi -= uint64(a)
+	}
+	return int64(uHi), lo
 }
 
 func (ix *PointIndex) GetHitMultiple(l Level) map[intgeom.Point][]int {
